@@ -3,6 +3,7 @@ package h_c06
 import (
 	"bytes"
 	"context"
+	"fmt"
 	"go.uber.org/zap"
 	"time"
 
@@ -40,7 +41,15 @@ func drive(ctx context.Context, cancel func(), agg core.Aggregator, reporters in
 	mk func(r, i int) core.Sample, reported func(r, i int), runDone func(err error)) {
 	done := make(chan struct{}, reporters)
 	go func() {
-		err := agg.Run(ctx, core.AggregatorDeps{Log: zap.NewNop()})
+		var err error
+		func() {
+			defer func() {
+				if p := recover(); p != nil {
+					err = fmt.Errorf("PANIC in aggregator Run: %v", p)
+				}
+			}()
+			err = agg.Run(ctx, core.AggregatorDeps{Log: zap.NewNop()})
+		}()
 		runDone(err)
 	}()
 	for r := 0; r < reporters; r++ {
